@@ -90,6 +90,12 @@ def matrix(tier, focus):
             if p != "NoGC":
                 runs.append(SRun(p, "b", driver="scheddrive", workers=1 + (i + 2) % 4, mutators=2,
                                  programs=2, ops=70, heap=8, seed_off=20 + i))
+        # complete concurrent cycles (allocation-triggered InitialMark ... FinalMark pauses): the
+        # concurrent-marking mode of the whole-system driver; user requests only give Full pauses
+        for w in (1, 3):
+            runs.append(SRun("ConcurrentImmix", "conc", workers=w, mutators=2, programs=2, ops=40,
+                             heap=12, sems="0,0,0,2,1", seed_off=40 + w,
+                             extra=["--mode", "satb", "--rounds", "3"]))
     else:
         for p in PLANS:
             for j, w in enumerate([1, 2, 4, 8]):
@@ -106,6 +112,10 @@ def matrix(tier, focus):
                                  opts="", seed_off=30, heap=5))
                 runs.append(SRun(p, "rel", driver="scheddrive", workers=4, programs=8, ops=120,
                                  seed_off=31, release=True))
+        for j, w in enumerate([1, 2, 4, 8]):
+            runs.append(SRun("ConcurrentImmix", "conc", workers=w, mutators=1 + j % 2, programs=4,
+                             ops=60, heap=12, sems="0,0,0,2,1", seed_off=40 + j,
+                             extra=["--mode", "satb", "--rounds", str(3 + j % 3)]))
     return runs
 
 
